@@ -111,12 +111,12 @@ def lean_phase(cfg, pid, tier, cmds):
             problems.append("no theorems found in " + props_mod)
             return obligations, problems
         # 4. axiom audit (generated file, not committed)
-        os.makedirs(os.path.join(LEAN, "Aurora", "Audit"), exist_ok=True)
-        ap = os.path.join(LEAN, "Aurora", "Audit", f"{pid}.lean")
+        os.makedirs(os.path.join(LEAN, "Audit"), exist_ok=True)
+        ap = os.path.join(LEAN, "Audit", f"{pid}.lean")
         with open(ap, "w") as f:
             f.write(f"import {props_mod}\n" + "".join(f"#print axioms {n}\n" for n in names))
         a = run(["lake", "env", "lean", ap], cwd=LEAN, timeout=1800)
-        cmds.append(f"(cd lean && lake env lean Aurora/Audit/{pid}.lean)   # #print axioms for every theorem")
+        cmds.append(f"(cd lean && lake env lean Audit/{pid}.lean)   # #print axioms for every theorem")
         text = a.stdout + a.stderr
         # entries look like: 'Name' depends on axioms: [a, b]   |   'Name' does not depend on any axioms
         flat = re.sub(r"\s+", " ", text)
